@@ -10,24 +10,10 @@ from vlib.common import Hex, OUT
 FP = ["lib/comdoc:", "lib/redblack:"] + ["lib/authenticode:." + f for f in ("sortMsiFiles", "hashMsiDir", "prehashMsiDir", "prehashMsiDirent", "MsiToTar",
       "msiToTarDir", "DigestMsiTar", "DigestMSI", "InsertMSISignature", "msiDecodeName")]
 
-# Genuine defects of relic found by this check, awaiting the maintainer's decision (fix: commit or known_findings.json).
-# While a key is listed here its reproduction is printed as PENDING-FINDING and does not fail the check; any other key does.
-PENDING = {
-    "C18:rb:black-height": "F04 redblack.Insert creates nodes black and never blackens the root: the rebuilt root directory tree is an "
-                           "unbalanced all-black search tree (unequal black heights) in every signed file with two or more root entries",
-    "C18:tree-order:relic-comparator": "F05 lessDirEnt compares the UTF-8 form case-sensitively; MS-CFB orders siblings by upper-cased UTF-16 "
-                                       "code units, so e.g. root streams 'a' and 'B' are linked in the wrong order",
-    "C18:tree-links-unallocated-entry": "deleting the last stream of the root storage leaves the root's child pointer on the blanked entry "
-                                        "(rebuildTree does not reset StorageRoot when the tree is empty)",
-    "C18:sign-fails:no-ministream": "F24 a stream below the 4096-byte cutoff cannot be added when the root has no mini stream "
-                                    "(writeShortSector computes file offset -1): every signature with an extended digest fails on such files",
-    "C18:close-panics:no-minifat": "F24 Close panics with index out of range [-2] when the header has no mini FAT "
-                                   "(writeShortSAT frees the chain starting at SecIDEndOfChain)",
-    "C18:add-panics:empty-content": "F24 AddFile / InsertMSISignature with empty content panics with index out of range [-2] (addStream writes sat[-2])",
-    "C18:digest:nested-signature-name": "F25 a stream named \\5DigitalSignature inside a sub-storage is skipped by DigestMSI but hashed by DigestMsiTar",
-    "C18:digest:decoded-signature-name": "F25 a root stream whose MSI-encoded name decodes to \\5DigitalSignature is skipped by DigestMsiTar but hashed by DigestMSI",
-    "C18:digest:exmeta-name": "F25 a root stream named __exmeta is taken for the tar metadata member by DigestMsiTar",
-}
+# Findings of this check (see /verif/known_findings.json): C18:rb:black-height and C18:tree-order:relic-comparator were fixed in /repo
+# (f87d35e, f8ff9c3) and are violations again if they reappear; the seven keys C18:sign-fails:no-ministream, C18:close-panics:no-minifat,
+# C18:add-panics:empty-content, C18:tree-links-unallocated-entry, C18:digest:{nested-signature-name,decoded-signature-name,exmeta-name}
+# are listed there as findings and print KNOWN-FINDING while they reproduce.
 
 # ---------------------------------------------------------------- MS-CFB validator / reader (model-free oracle)
 # Written from [MS-CFB] (header 2.2, FAT 2.3, miniFAT 2.4, DIFAT 2.5, directory 2.6, red-black tree and name order 2.6.4).
@@ -481,17 +467,7 @@ def run(ctx, replay=None):
     model_ok = st["model_ok"]
     if not st["harness_ok"]:
         return ctx.finish("proof", ctx.proof_coverage([], FP), [])
-    pending_hits = {}
-
     def report(key, detail, obj, found=True):
-        if key in PENDING:
-            if key not in pending_hits:
-                os.makedirs(os.path.join(OUT, "replay", "C18"), exist_ok=True)
-                path = os.path.join(OUT, "replay", "C18", "pending-%s.json" % hashlib.sha256(key.encode()).hexdigest()[:10])
-                json.dump(dict(obj, property="C18", key=key, detail=detail, pending=PENDING[key]), open(path, "w"), indent=1, default=str)
-                pending_hits[key] = [0, detail, path]
-            pending_hits[key][0] += 1
-            return
         ctx.violation(key, detail, obj, found)
 
     # ------------------------------------------------------------ run the real code
@@ -685,9 +661,21 @@ def run(ctx, replay=None):
         elif a["fn"] == "tables":
             report("C18:alloc:sector-tables", "allocSectorTables: " + a["status"], {"cmd": "c18alloc", "cases": [a]})
 
+    # ------------------------------------------------------------ oracle on the comparator: the real lessDirEnt against the MS-CFB order
+    # computed by the harness with Go's unicode.ToUpper (reference for cased letters above U+00FF) and, where Python's simple
+    # upper-casing agrees with Go's, against this file's own transcription
+    n_py_go_diff = 0
+    for c in less:
+        a, b = c["a"] or [], c["b"] or []
+        if c["less"] != c["want"]:
+            ctx.violation("C18:less-dirent:order", "lessDirEnt(%r, %r) = %s but the MS-CFB order (length, then upper-cased code units) says %s" %
+                          (u16s(a), u16s(b), c["less"], c["want"]), {"cmd": "c18less", "cases": [c]})
+        if (cfb_name_key(a) < cfb_name_key(b)) != c["want"]:
+            n_py_go_diff += 1
+
     # ------------------------------------------------------------ model / implementation correspondence
     evaluated, mism = 0, {}
-    n_rb_valid_coded = n_rb_valid_fixed = n_order_diff = 0
+    n_rb_valid_coded = n_rb_valid_fixed = n_order_diff = n_in_domain = 0
     if model_ok:
         try:
             # red-black insertion
@@ -718,11 +706,17 @@ def run(ctx, replay=None):
                     mism.setdefault("alloc:" + a["fn"], []).append(a)
             # comparator
             res = ctx.run_model([[4, [c["a"] or [], c["b"] or [], Hex(c["na"]), Hex(c["nb"]), c["less"]]] for c in less])
-            for c, (codes, cfb_lt) in zip(less, res):
+            for c, (codes, cfb_lt, indom) in zip(less, res):
                 evaluated += 1
                 if codes:
                     mism.setdefault("less", []).append(c)
-                if bool(cfb_lt) != c["less"]:
+                if indom:
+                    n_in_domain += 1
+                    if bool(cfb_lt) != c["less"]:
+                        # inside the agreement domain the theorem relic_order_eq_cfb says this cannot happen for the model
+                        ctx.violation("C18:less-dirent:order", "lessDirEnt(%r, %r) = %s but the MS-CFB order (Coq transcription) says %s" %
+                                      (u16s(c["a"] or []), u16s(c["b"] or []), c["less"], bool(cfb_lt)), {"cmd": "c18less", "cases": [c]})
+                elif bool(cfb_lt) != c["less"]:
                     n_order_diff += 1
             # the proved validator on every file (files above 1 MiB are left to the python oracle)
             small = [(p, codes) for p, codes in files if os.path.getsize(p) <= 1 << 20]
@@ -764,16 +758,12 @@ def run(ctx, replay=None):
                         "sizes, position in history) steps + red-black key sequences + allocation cases",
                 "samples": samples, "exhaustive": False, "input_distribution": kinds, "scenario_steps": n_steps, "steps_completed": n_ok,
                 "files_validated": len(files), "rb_sequences": len(rbc), "rb_valid_as_coded": n_rb_valid_coded, "rb_valid_if_repaired": n_rb_valid_fixed,
-                "alloc_cases": len(alloc), "comparator_pairs": len(less), "comparator_pairs_differing_from_ms_cfb_order": n_order_diff,
-                "model_mismatches": {k: len(v) for k, v in mism.items()},
-                "pending_findings": {k: {"count": v[0], "example": v[1], "replay": v[2], "what": PENDING[k]} for k, v in pending_hits.items()}})
-    for k in PENDING:
-        if k not in pending_hits and not replay:
-            ctx.notes.append("pending finding %s did not reproduce in this run (fixed? remove it from PENDING in checks/c18.py)" % k)
-    for k, v in sorted(pending_hits.items()):
-        print("PENDING-FINDING: property=C18 %s x%d replay=%s (%s)" % (k, v[0], v[2], PENDING[k][:110]))
+                "alloc_cases": len(alloc), "comparator_pairs": len(less), "comparator_pairs_in_agreement_domain": n_in_domain,
+                "comparator_pairs_outside_domain_where_coq_transcription_differs": n_order_diff,
+                "comparator_pairs_where_python_and_go_case_tables_differ": n_py_go_diff,
+                "model_mismatches": {k: len(v) for k, v in mism.items()}})
     return ctx.finish("proof", cov, ["validity is [MS-CFB] as transcribed in C18/Proofs.v (valid_with) and in the oracle of checks/c18.py; "
-                                     "upper-casing of names covers ASCII and Latin-1 in Coq (the oracle uses Python's tables)",
+                                     "upper-casing of names in the Coq transcription of the MS-CFB order covers ASCII and Latin-1 (theorem agreement_domain); for cased letters above U+00FF Go's unicode.ToUpper (srcgen table go_upper_runs) is the reference and the real comparator is compared with it on every pair",
                                      "the writer as a whole (Close) is covered by validation of its outputs, not by a refinement proof; the proved parts are "
                                      "the red-black insertion, the allocation primitives and the validator",
                                      "crypto: SHA-256 from Go/Python standard libraries"])
